@@ -112,6 +112,17 @@ def check(ctx):
         tag = ("tau fitted" if free_tau else "tau supplied") + ("; " + ", ".join(other) if other else "")
         cf = [e for e in p.events if e.kind == "ext_call" and e.data["callee"] == "scipy.optimize.curve_fit"]
         if len(cf) != 1:
+            if not cf:
+                # a straight-line fit (np.polyfit degree 1, linregress) has a free intercept: its slope is not the
+                # least-squares amplitude of the through-origin model M * rf(t / tau), clipped or not
+                alt = [e for e in p.events if e.kind == "ext_call" and e.data["callee"] in ("numpy.polyfit", "scipy.stats.linregress", "numpy.polynomial.polynomial.polyfit")]
+                if alt:
+                    ctx.bad(
+                        "C05-d", FC + f"ForecasterOnePhase.fit [{tag}]:bounded least squares", f"{m.file}:{alt[0].line}",
+                        "the parameters come from the bounded least-squares fit of the documented model M * rf(t / tau) (no intercept, limits from Bounds)",
+                        signature="fitted by " + alt[0].data["callee"], routine=alt[0].data["callee"],
+                    )
+                    continue
             raise AnalysisError(f"fit [{tag}]: expected one curve_fit call")
         a = cf[0].data["args"]
         where = f"{m.file}:{cf[0].line}"
